@@ -734,7 +734,7 @@ func areEqualTableName(query, pattern sqlparser.TableName) bool {
 	return true
 }
 func areEqualTableIdent(query, pattern sqlparser.TableIdent) bool {
-	return strings.EqualFold(query.CompliantName(), pattern.CompliantName())
+	return strings.EqualFold(query.RawValue(), pattern.RawValue())
 }
 func areEqualAliasedExpr(query, pattern *sqlparser.AliasedExpr) bool {
 	if !areEqualColIdent(query.As, pattern.As) {
